@@ -205,6 +205,7 @@ class Machine:
         self.depth = 0
         self.max_depth = max_depth
         self.fit_cache = {}
+        self.excl = {}
         self.solver = z3.Solver()
         self.func_addr = {}
         self.addr_func = {}
@@ -828,6 +829,15 @@ class Exec:
                 continue
             self.path[a] = p
             self.path_stack.append(a)
+            if p:
+                # atoms registered as mutually exclusive with a (value-set inputs): a true => the others false
+                for b in self.excl.get(a, ()):
+                    if b in self.path:
+                        if self.path[b]:
+                            raise AbortSide("infeasible", "contradictory side")
+                        continue
+                    self.path[b] = False
+                    self.path_stack.append(b)
 
     def pop_to(self, mark):
         while len(self.path_stack) > mark:
@@ -1421,6 +1431,26 @@ class Externals:
             return lo
         return Term(x, lo, hi)
 
+    def x_sym_vs(self, name, args):
+        """input kept as a *value set*: one alternative per value, guarded by (x == v); all operations on it stay concrete leaf-wise"""
+        nm = self.read_cstr(args[0]).decode()
+        lo, hi = args[1], args[2]
+        if not self.symbolic:
+            return self.concrete_inputs.get(nm, lo) & MASK[32]
+        if nm in self.inputs:
+            raise Unsupported("input %s read twice" % nm)
+        x = z3.Int(nm)
+        self.inputs[nm] = (x, lo, hi)
+        c = z3.And(x >= lo, x <= hi)
+        self.constraints.append(c)
+        self.solver.add(c)
+        if lo == hi:
+            return lo
+        lits = [self.lits.literal(x == v) for v in range(lo, hi + 1)]
+        for l in lits:
+            self.excl[l[0]] = [m[0] for m in lits if m[0] != l[0]]
+        return GU([(frozenset([l]), v) for l, v in zip(lits, range(lo, hi + 1))])
+
     def x_sym_out(self, name, args):
         nm = self.read_cstr(args[0]).decode()
         idx = args[1]
@@ -1698,6 +1728,7 @@ def _x_unsupported_io(m, name, args):
 EXT = {
     "sym_u32": Externals.x_sym_u32,
     "sym_out": Externals.x_sym_out,
+    "sym_vs": Externals.x_sym_vs,
     "_Znwm": _x_new,
     "_Znam": _x_new,
     "malloc": _x_new,
